@@ -2,7 +2,7 @@
 From Coq Require Import String Ascii List Bool Arith.
 Import ListNotations.
 From Coq Require Import NArith.
-Require Import V.Lib.PyStr V.Fs.Model V.Fs.Proofs V.Fs.Codec V.Fs.Wide.
+Require Import V.Lib.PyStr V.Fs.Model V.Fs.Proofs V.Fs.Codec V.Fs.Wide V.Fs.Create.
 Open Scope string_scope.
 
 (* An update made of temp+rename transactions (each: create a temporary file, write it in any number
@@ -103,6 +103,49 @@ Proof.
 Qed.
 Print Assumptions C14_history_any_faults.
 
+(* The CREATION path: the first write of the state files, when an instance is created
+   (Experiment.experimentFromPackage: w = true) or an instance that lacks some of them is opened
+   (Experiment.experimentFromInstance: w = false) - two phases, xs = the configuration files (an I/O error
+   there gives the creation up: phase 2 is not reached and, for w = true, the instance directory is removed),
+   ys = status.txt.  After ANY fault every file that is not a temporary file holds what it held before
+   (for a new instance: it does not exist), or does not exist, or holds the complete text of one of the
+   transactions for it - never part of a text. *)
+Theorem C14_creation_atomic : forall (w : bool) (xs ys : list txn), Forall good (xs ++ ys) ->
+  forall p, (forall x, In x (xs ++ ys) -> tmp x <> p) ->
+  forall (f : fault) (s : fs),
+    let s' := run (exec2 w xs ys f) s in
+    read p s' = read p s \/ read p s' = None \/
+    exists c, read p s' = Some c /\ exists x b', In x (xs ++ ys) /\ dst x = p /\ c = concat_str (chunks x b').
+Proof. exact exec2_atomic. Qed.
+Print Assumptions C14_creation_atomic.
+
+(* ... opening an existing instance never loses a state file (previous or complete new); a creation that is
+   given up leaves no state file at all; a creation that is not interrupted writes every state file completely. *)
+Theorem C14_creation_reopen_abort_complete : forall (xs ys : list txn), Forall good (xs ++ ys) ->
+  (forall p, (forall x, In x (xs ++ ys) -> tmp x <> p) -> forall f s,
+     read p (run (exec2 false xs ys f) s) = read p s \/
+     exists c, read p (run (exec2 false xs ys f) s) = Some c /\
+               exists x b', In x (xs ++ ys) /\ dst x = p /\ c = concat_str (chunks x b')) /\
+  (forall f s, aborts xs f = true -> forall x, In x (xs ++ ys) -> read (dst x) (run (exec2 true xs ys f) s) = None) /\
+  (NoDup (map dst (xs ++ ys)) -> (forall x y, In x (xs ++ ys) -> In y (xs ++ ys) -> tmp x <> dst y) ->
+     forall w x s, In x (xs ++ ys) -> read (dst x) (run (exec2 w xs ys NoFault) s) = Some (concat_str (chunks x true))).
+Proof.
+  intros xs ys G. split; [|split].
+  - intros p Hp f s. exact (exec2_reopen xs ys G p Hp f s).
+  - intros f s A x Hx. exact (exec2_abort_removes xs ys f s A x Hx).
+  - intros N T w x s Hx. exact (exec2_complete w xs ys G N T x s Hx).
+Qed.
+Print Assumptions C14_creation_reopen_abort_complete.
+
+(* the protocol of the real creation path (compared with the recorded traces of Experiment.experimentFromPackage /
+   experimentFromInstance) meets these hypotheses, and no temporary file is a state file *)
+Theorem C14_creation_follows_the_protocol : forall ci cm d,
+  let zs := (create_conf ci cm ++ create_status d)%list in
+  Forall good zs /\ NoDup (map dst zs) /\ (forall x y, In x zs -> In y zs -> tmp x <> dst y) /\
+  (forall x, In x zs -> tmp x <> "flowir_instance.yaml" /\ tmp x <> "manifest.yaml" /\ tmp x <> "status.txt").
+Proof. exact creation_good. Qed.
+Print Assumptions C14_creation_follows_the_protocol.
+
 (* non-vacuity: a dictionary with a nasty error description (outer blanks, line breaks, backslashes, NUL,
    NEL) satisfies the guard and round-trips; an I/O error in the middle of the second write of the next
    update leaves the previous status.txt; a history of faulted and completed attempts; a description with
@@ -111,6 +154,9 @@ Definition ex_d : list (string * string) :=
   [("stages", "['stage0', 'stage1']"); ("exit-status", "a = b \ c");
    (ED, String " " (String "a" (String nl (String bsl (String "n" (String (ascii_of_nat 133) (String "=" (String (ascii_of_nat 0) (String "b" (String nl ""))))))))))].
 Definition ex_d2 : list (string * string) := [("stages", "['stage0', 'stage1']"); ("exit-status", "Failed")].
+Definition ex_conf : list txn := create_conf ["components:"; " []"] ["conf:"; " c"].
+Definition ex_status : list txn := create_status (Some ex_d2).
+Definition ex_files : list string := ["flowir_instance.yaml"; "manifest.yaml"; "status.txt"].
 Example C14_nonvacuous :
   pairs_ok ex_d /\ pairs_ok ex_d2 /\
   status_parse (status_print ex_d) = Some (sort_keys ex_d) /\
@@ -119,7 +165,17 @@ Example C14_nonvacuous :
   candidates [ex_d] [(ex_d2, Die 1 2); (ex_d, NoFault); (ex_d2, EIO 3 0); (ex_d2, Die 4 0)] = [ex_d2; ex_d2; ex_d] /\
   read "status.txt" (run_attempts [(ex_d2, Die 1 2); (ex_d, NoFault); (ex_d2, EIO 3 0); (ex_d2, Die 4 0)] []) = Some (status_print ex_d) /\
   escape_w [10%N; 233%N; 256%N; 8364%N; 128512%N] = "\n\xe9\u0100\u20ac\U0001f600" /\
-  unescape_text (wide (escape_w [10%N; 233%N; 256%N; 8364%N; 128512%N; 55296%N; 1114111%N])) = Some [10%N; 233%N; 256%N; 8364%N; 128512%N; 55296%N; 1114111%N].
+  unescape_text (wide (escape_w [10%N; 233%N; 256%N; 8364%N; 128512%N; 55296%N; 1114111%N])) = Some [10%N; 233%N; 256%N; 8364%N; 128512%N; 55296%N; 1114111%N] /\
+  (* creation of a new instance: not interrupted; death inside the first write of status.txt; I/O error in
+     manifest.yaml (the creation is given up, the directory removed); the same when the instance is reopened *)
+  map (fun p => read p (run (exec2 true ex_conf ex_status NoFault) [])) ex_files
+    = [Some "components: []"; Some "conf: c"; Some (status_print ex_d2)] /\
+  map (fun p => read p (run (exec2 true ex_conf ex_status (Die 11 3)) [])) ex_files
+    = [Some "components: []"; Some "conf: c"; None] /\
+  aborts ex_conf (EIO 6 2) = true /\
+  map (fun p => read p (run (exec2 true ex_conf ex_status (EIO 6 2)) [])) ex_files = [None; None; None] /\
+  map (fun p => read p (run (exec2 false ex_conf ex_status (EIO 6 2)) [("manifest.yaml", "old")])) ex_files
+    = [Some "components: []"; Some "old"; None].
 Proof.
   assert (P1 : pairs_ok ex_d).
   { unfold pairs_ok, ex_d. split; [|split].
